@@ -82,7 +82,8 @@ def judge(rep, c, line, res):
             "out_trail_blank": o1.rstrip("\n").endswith(" "), "out_inner_newline": "\n" in o1.rstrip("\n"),
             "out_blank": " " in o1.strip(), "out": o1, "out2": o2,
             "out_quoted": len(o1.rstrip("\n")) >= 2 and o1.rstrip("\n")[0] in "'\"" and o1.rstrip("\n")[-1] == o1.rstrip("\n")[0],
-            "bq_leading_more": c["sp"] == "bq" and c["ctx"] in ("unq", "here") and not chars(c["pre"]) and (bool(chars(c["post"])) or c["two"])}
+            "bq_leading_more": c["sp"] == "bq" and c["ctx"] in ("unq", "here") and
+            ((not chars(c["pre"]) and (bool(chars(c["post"])) or c["two"])) or (bool(c.get("sepwords")) and bool(chars(c["post"]))))}
     case = {"case": c, "text": line, "vh": {"out.1": o1, "out.2": o2}, "status": res.get("status"), "stderr": res.get("stderr", "")[-300:],
             "log": res.get("log")}
 
@@ -171,6 +172,11 @@ def runner(rep, tier, seed, replay):
             vol.append(dict(c, kind="simple", volume="both"))
             vol.append(dict(c, kind="simple", volume="bigout-mb"))
     cases += vol
+    # multi-byte text in the same word, before and after the substitution (offsets into the word are counted in bytes or in
+    # characters somewhere: they must agree)
+    mb = [dict(c, pre=["U"] + list(c["pre"]), post=list(c["post"]) + ["W"]) for c in cases
+          if not c.get("volume") and c["kind"] in ("simple", "pipeline") and chars(c["o1"]) in ("x", "a b")]
+    cases += mb
     # two substitutions as two separate words of one command (each spliced into its own word, each inner command run once)
     tw = [dict(c, sepwords=True) for c in cases if c["two"] and c["ctx"] in ("unq", "dq") and c["kind"] == "simple" and c["shape"] == "whole"]
     cases += tw
